@@ -37,25 +37,33 @@ def msgHashLine (t : Table) : Outcome String := do
     | _ => pure h0
   pure s!"{hexOut h0} {hexOut h1} {infoKind m.info} {hexOut bh}"
 
+def msgHashHandler : Handler := fun
+  | [t] => match parseTable t with
+    | some tb => match msgHashLine tb with
+      | .ok s => "ok " ++ s
+      | .err _ => "err"
+      | .panic _ => "panic"
+    | none => "bad-op"
+  | _ => "bad-op"
+
+def txHashHandler : Handler := fun
+  | [t] => match parseTable t with
+    | some tb => match (match (Table.infos sha256 tb)[0]? with
+        | some i => i >>= (·.hashAt 3)
+        | none => .err "empty table") with
+      | .ok h => "ok " ++ hexOut h
+      | .err _ => "err"
+      | .panic _ => "panic"
+    | none => "bad-op"
+  | _ => "bad-op"
+
+/-- the `.hasher` variants are the same model functions: a sound caching hasher reports the representation hash
+(msg_hash_hasher_independent) -/
 def opsC16 : List (String × Handler) := [
-  ("msg.hash", fun
-    | [t] => match parseTable t with
-      | some tb => match msgHashLine tb with
-        | .ok s => "ok " ++ s
-        | .err _ => "err"
-        | .panic _ => "panic"
-      | none => "bad-op"
-    | _ => "bad-op"),
-  ("tx.hash", fun
-    | [t] => match parseTable t with
-      | some tb => match (match (Table.infos sha256 tb)[0]? with
-          | some i => i >>= (·.hashAt 3)
-          | none => .err "empty table") with
-        | .ok h => "ok " ++ hexOut h
-        | .err _ => "err"
-        | .panic _ => "panic"
-      | none => "bad-op"
-    | _ => "bad-op")
+  ("msg.hash", msgHashHandler),
+  ("msg.hash.hasher", msgHashHandler),
+  ("tx.hash", txHashHandler),
+  ("tx.hash.hasher", txHashHandler)
 ]
 
 end Driver
